@@ -284,6 +284,10 @@ Definition sp_qop (pol:nat) (mc:machine) (o:op) (st:qstate) : list titem * optio
                         (rev (i ++ o_items o), Some (o_taken o, o_rejected o), (c', []))
   | OEnqueue e => ([], None, (c, pend ++ [e]))
   | ODrain val _ => let '(i, c') := sp_drain pol mc val pend c in (rev i, None, (c', []))
+  | ODrain1 val _ => match pend with
+                     | [] => ([], None, st)
+                     | e :: t => let o := sp_process pol mc e val c in (rev (o_items o), None, (o_conf o, t))
+                     end
   | _ => ([], None, st)
   end.
 Fixpoint sp_qrun (pol:nat) (mc:machine) (st:qstate) (l:list op) : list (list titem * option (bool * bool) * list (list nat * list nat)) :=
@@ -346,6 +350,7 @@ Definition qplain_op (o:op) : Prop :=
   | OProcess e _ [] => e_ty e <> EV_NONE
   | OEnqueue e => e_ty e <> EV_NONE
   | ODrain _ [] => True
+  | ODrain1 _ [] => True
   | _ => False
   end.
 Fixpoint count_enq (l:list op) : nat :=
@@ -358,6 +363,7 @@ Definition qplain_opb (o:op) : bool :=
   | OProcess e _ [] => negb (Nat.eqb (e_ty e) EV_NONE)
   | OEnqueue e => negb (Nat.eqb (e_ty e) EV_NONE)
   | ODrain _ [] => true
+  | ODrain1 _ [] => true
   | _ => false
   end.
 Definition spec_qtrace (pol:nat) (mc:machine) (l:list op) := sp_qrun pol mc (abs (init_rnode mc), []) l.
